@@ -649,7 +649,7 @@ Qed.
 (** the file is never touched unless the call returns normally *)
 Lemma download_from_state : forall ms k st,
   match fst (fst (download_from k ms st)) with
-  | DOk _ => exists b, snd (fst (download_from k ms st)) = {| dl_path := true; dl_file := Some (content st ++ b) |}
+  | DOk _ => exists b, snd (fst (download_from k ms st)) = {| dl_path := true; dl_file := Some b |}
   | DRaise _ => snd (fst (download_from k ms st)) = st
   end.
 Proof.
